@@ -335,7 +335,9 @@ type c19WordCase struct {
 	Greeted bool   `json:"greeted"`
 }
 
-var c19Alpha = []byte{0, '\r', '\n', ' ', 'A', 'a', ':', '<'}
+// (0xFF and 0xE9 are not UTF-8: case folding and other string functions
+// replace them by a three-octet U+FFFD, which changes lengths)
+var c19Alpha = []byte{0, '\r', '\n', ' ', 'A', 'a', ':', '<', 0xff, 0xe9}
 
 func c19WordRun(c c19WordCase) Verdict {
 	r := harness.NewRig(harness.Config{}, harness.Script{})
@@ -588,7 +590,7 @@ func init() {
 
 func TestC19(t *testing.T) {
 	registerAll()
-	st.Rule = "cases = probe lines of total length L-3..L+4, 2L, 3L at five conversation positions, lock-step and pipelined, whole or in two segments; endless (1 MiB, no LF) lines with octets consumed measured on the in-memory network, with and without a Debug writer attached to the server; all strings up to the length bound over {NUL,CR,LF,SP,'A','a',':','<'} as raw input; mixes of valid, state-refused and malformed commands around the error threshold, optionally with a STARTTLS upgrade in between; random blobs of command fragments and raw octets; non-trivial = probe within 3 of L OR input with NUL/CR OR >= 3 errors OR endless line; distinct = hash of the whole case"
+	st.Rule = "cases = probe lines of total length L-3..L+4, 2L, 3L at five conversation positions, lock-step and pipelined, whole or in two segments; endless (1 MiB, no LF) lines with octets consumed measured on the in-memory network, with and without a Debug writer attached to the server; all strings up to the length bound over {NUL,CR,LF,SP,'A','a',':','<',0xFF,0xE9} and the next two lengths over {0xFF,SP,'A',LF} as raw input; mixes of valid, state-refused and malformed commands around the error threshold, optionally with a STARTTLS upgrade in between; random blobs of command fragments and raw octets; non-trivial = probe within 3 of L OR input with NUL/CR OR >= 3 errors OR endless line; distinct = hash of the whole case"
 	if !regress(t, "C19") {
 		return
 	}
@@ -632,6 +634,30 @@ func TestC19(t *testing.T) {
 			for i := 0; i < l; i++ {
 				word[i] = c19Alpha[x%len(c19Alpha)]
 				x /= len(c19Alpha)
+			}
+			if !c19Word.one(t, c19WordCase{Word: word, Greeted: idx%2 == 0}) {
+				complete = false
+			}
+		}
+	}
+	// and the longer words over the four octets that matter for lengths: a
+	// line whose case-folded form is longer than the line itself
+	hi := []byte{0xff, ' ', 'A', '\n'}
+	for l := maxLen + 1; l <= maxLen+2 && complete; l++ {
+		total := 1
+		for i := 0; i < l; i++ {
+			total *= len(hi)
+		}
+		for n := 0; n < total && complete; n++ {
+			idx++
+			if !mine(idx) {
+				continue
+			}
+			word := make([]byte, l)
+			x := n
+			for i := 0; i < l; i++ {
+				word[i] = hi[x%len(hi)]
+				x /= len(hi)
 			}
 			if !c19Word.one(t, c19WordCase{Word: word, Greeted: idx%2 == 0}) {
 				complete = false
